@@ -36,7 +36,7 @@ func c19Alphabet() []Action {
 	a := []Action{
 		cmd("SET", "k1", "v"), cmd("SET", "k1", "a-longer-value"), cmd("SET", "k1", "10"), cmd("SET", "k1", "v", "EX", "100"), cmd("SET", "k2", "v"),
 		cmd("MSET", "k1", "v", "k2", "ww"), cmd("APPEND", "k1", "xx"), cmd("INCR", "k1"), cmd("INCRBYFLOAT", "k1", "1.5"), cmd("SETRANGE", "k1", "1", "zz"),
-		cmd("DEL", "k1"), cmd("DEL", "k1", "k2"), cmd("GETDEL", "k1"), cmd("RENAME", "k1", "k2"), cmd("RENAME", "k2", "newkey"),
+		cmd("DEL", "k1"), cmd("DEL", "k1", "k2"), cmd("DEL", "k1", "k2", "k1"), cmd("GETDEL", "k1"), cmd("RENAME", "k1", "k2"), cmd("RENAME", "k2", "newkey"),
 		cmd("EXPIRE", "k1", "100"), cmd("PERSIST", "k1"), cmd("PEXPIRE", "k1", "5"), cmd("GET", "k1"), cmd("GETEX", "k1", "EX", "100"),
 		cmd("LPUSH", "l", "e"), cmd("RPUSH", "l", "e", "ff"), cmd("LPOP", "l"), cmd("RPOP", "l", "2"), cmd("LTRIM", "l", "0", "0"), cmd("LSET", "l", "0", "zzz"), cmd("LREM", "l", "0", "e"), cmd("LMOVE", "l", "l2", "LEFT", "RIGHT"),
 		cmd("HSET", "h", "f1", "v"), cmd("HSET", "h", "f1", "longer", "f2", "2"), cmd("HSETNX", "h", "f3", "v"), cmd("HDEL", "h", "f1"), cmd("HINCRBY", "h", "f2", "1"),
